@@ -188,6 +188,11 @@ def _gen_frames(rng):
                 msg["kep"][1] = rng.uniform(0.001, 0.05)
                 msg["src"] = rng.choice(["kepler", "static"])
                 msg["deps"] = ["Moon"]
+            # a local orbital frame whose parent is a user-registered inertial frame: the frame's name differs from its orientation's
+            ufr = [m["name"] for m in msgs if m["op"] == "frame" and m["orient"] in _INERTIAL]
+            if ufr and msg["orient"] and "cart" not in msg and msg["frame"] in _INERTIAL and rng.random() < 0.5:
+                msg["parent"] = rng.choice(ufr)
+                msg["deps"] = list(msg.get("deps", [])) + [msg["parent"]]
             msgs.append(msg)
     names = [m["name"] for m in msgs]
     per_rep = []
